@@ -35,11 +35,15 @@ theorem step_invS {s s' : State} {e : Event} (hS : InvS s) (hs : step s e = .ok 
   refine ⟨hcl, ?_, ?_, ?_, ?_, ?_, ?_, ?_⟩
   · -- flag
     intro n hn
-    rcases step_flag_new hs n hn with h | ⟨a, f, rest, top, _, hpc, hf⟩
+    rcases step_flag_new hs n hn with h | ⟨a, f, rest, top, _, hpc, hf⟩ | ⟨a, p, dl, _, hpc⟩
     · exact Caused.stable hS hs (hS.flag n h)
     · have hc := hS.claim a
       rw [hpc] at hc
       exact Caused.stable hS hs (hf ▸ hc.2.2.1 f (by simp))
+    · have hc := hS.claim a
+      rw [hpc] at hc
+      obtain ⟨_, hp, hae, hcp⟩ := hc
+      exact Caused.stable hS hs (Caused.up (above_of_cons hS hp hae) (hcp rfl))
   · -- expiry
     intro n e hn he
     cases h0 : (s.notes n).allocated with
@@ -49,32 +53,33 @@ theorem step_invS {s s' : State} {e : Event} (hS : InvS s) (hs : step s e = .ok 
       rw [hrec] at he
       exact ⟨n, by rw [han]; simp, by rw [hod]; exact he⟩
     | true =>
-      rcases step_expiry hs n h0 with h | ⟨a, p, dl, _, hpc, hexp, _⟩
+      rcases step_expiry hs n h0 with h | ⟨a, p, dl, _, _, hpc, hexp⟩
       · rw [h] at he
         rcases hS.expiry n e h0 he with h | ⟨h1, h2⟩
         · left; exact DlFrom.stable hS hs h
         · right; exact ⟨h1, Caused.stable hS hs h2⟩
       · have hc := hS.claim a
-        rw [hpc] at hc
-        obtain ⟨_, hp, hae⟩ := hc
+        have hd : DKS s n (.newSelf (some p) dl) := by
+          rcases hpc with ⟨pos, nt, hpc⟩ | ⟨pos, par, hpc⟩
+          · rw [hpc] at hc; exact hc.1
+          · rw [hpc] at hc; exact hc.1
+        obtain ⟨_, hp, hae, hown⟩ := hd p rfl
         have hab : Above s p n := above_of_cons hS hp hae
         rw [hexp] at he
-        unfold NoteRec.ntime at he
+        unfold Dl.min at he
         split at he
-        · next hf =>
-          simp only [Option.some.injEq] at he
-          right
-          exact ⟨he.symm, Caused.stable hS hs (Caused.up hab (hS.flag p hf))⟩
         · rcases hS.expiry p e hp he with ⟨x, hx, hd⟩ | ⟨h1, h2⟩
           · left; exact DlFrom.stable hS hs ⟨x, hab.2 x hx, hd⟩
           · right; exact ⟨h1, Caused.stable hS hs (Caused.up hab h2)⟩
+        · left
+          exact DlFrom.stable hS hs ⟨n, hS.self n h0, by rw [hown]; exact he⟩
   · -- children
     intro p c hc
     rcases step_children hs p c hc with h | ⟨a, dl, _, hpc⟩ | ⟨a, n, nx, _, hpc⟩
     · exact Above.stable hS hs (hS.children p c h)
     · have hcl := hS.claim a
       rw [hpc] at hcl
-      exact Above.stable hS hs (above_of_cons hS hcl.2.1 hcl.2.2)
+      exact Above.stable hS hs (above_of_cons hS hcl.2.1 hcl.2.2.1)
     · have hcl := hS.claim a
       rw [hpc] at hcl
       exact Above.stable hS hs (Above.trans (hcl.1 p rfl) (hcl.2 rfl))
@@ -84,7 +89,7 @@ theorem step_invS {s s' : State} {e : Event} (hS : InvS s) (hs : step s e = .ok 
     · exact Above.stable hS hs (hS.parent p c h)
     · have hcl := hS.claim a
       rw [hpc] at hcl
-      exact Above.stable hS hs (above_of_cons hS hcl.2.1 hcl.2.2)
+      exact Above.stable hS hs (above_of_cons hS hcl.2.1 hcl.2.2.1)
     · have hcl := hS.claim a
       rw [hpc] at hcl
       exact Above.stable hS hs (Above.trans (hcl.1 p rfl) (hcl.2 rfl))
